@@ -443,3 +443,60 @@ def x12(cx: Cx, ob: Ob) -> None:
     from ..rules import package_lints
 
     package_lints(cx, ob, {'api.py'})
+
+
+# ---------------------------------------------------------------------- trusted base, checked statically
+def pytrie_semantics() -> dict:
+    """Read the installed pytrie source (no import, no execution) and confirm the two facts the
+    rules rely on: Trie.__init__ only forwards to update(), and longest_prefix_item returns the
+    LAST valued node on the key's path (= the longest stored prefix) and raises KeyError when
+    there is none and no default was given."""
+    import ast
+    import pathlib
+    import sys
+
+    out = {"found": False}
+    cands = [pathlib.Path(p) / "pytrie.py" for p in sys.path if p] + list(pathlib.Path("/venv/lib").glob("python*/site-packages/pytrie.py"))
+    src = next((p for p in cands if p.exists()), None)
+    if src is None:
+        return out
+    out["found"] = True
+    out["file"] = str(src)
+    tree = ast.parse(src.read_text())
+    trie = next((n for n in ast.walk(tree) if isinstance(n, ast.ClassDef) and n.name == "Trie"), None)
+    if trie is None:
+        out["error"] = "class Trie not found"
+        return out
+    meths = {n.name: n for n in trie.body if isinstance(n, ast.FunctionDef)}
+    init = meths.get("__init__")
+    body = [s for s in init.body if not (isinstance(s, ast.Expr) and isinstance(s.value, ast.Constant))] if init else []
+    out["init_forwards_to_update"] = bool(init) and any(isinstance(s, ast.Expr) and isinstance(s.value, ast.Call) and ast.unparse(s.value.func) == "self.update" for s in body) and not any(isinstance(s, ast.For) for s in body)
+    lp = meths.get("longest_prefix_item")
+    if lp is None:
+        out["error"] = "longest_prefix_item not found"
+        return out
+    loops = [n for n in lp.body if isinstance(n, ast.For)]
+    walks_key = bool(loops) and "key" in ast.unparse(loops[0].iter)
+    # inside the loop: the remembered value is overwritten whenever the current node carries one
+    overwrites = any(isinstance(n, ast.Assign) and any(isinstance(t, ast.Name) and "longest" in t.id for t in n.targets) for l in loops for n in ast.walk(l))
+    breaks_on_missing = any(isinstance(n, ast.Break) for l in loops for n in ast.walk(l))
+    raises = [n for n in ast.walk(lp) if isinstance(n, ast.Raise) and n.exc is not None and "KeyError" in ast.unparse(n.exc)]
+    out["longest_prefix_item"] = {"walks_key": walks_key, "keeps_last_valued_node": overwrites, "stops_at_first_missing_child": breaks_on_missing, "raises_KeyError": bool(raises)}
+    out["ok"] = bool(out["init_forwards_to_update"] and walks_key and overwrites and breaks_on_missing and raises)
+    return out
+
+
+from ..report import thorough_extra  # noqa: E402
+
+
+@thorough_extra("C01")
+def validate_pytrie_table():
+    r = pytrie_semantics()
+    if not r.get("found"):
+        print("trusted base: pytrie source not found; semantic table not cross-checked")
+        return 0, {"trusted_base_check": r}
+    if not r.get("ok"):
+        print(f"ANALYSIS-ERROR property=C01 obligation=trusted-base reason=installed pytrie does not have the shape the rules assume: {r}")
+        return 2, {"trusted_base_check": r}
+    print(f"trusted base: installed pytrie ({r['file']}) has the assumed shape: __init__ -> update(); longest_prefix_item keeps the last valued node and raises KeyError")
+    return 0, {"trusted_base_check": r}
